@@ -79,9 +79,10 @@ Inline(k) == ~cfg.spawn /\ Kind(k) \in UserKinds
    "rootR" wants the root read lock (get/set/intro); "ifR" wants X's read lock;
    "ifW" wants to announce as X's writer; "ifWp" announced, waiting for readers to drain;
    "ready" locks taken, handler not started; "run" in the body; "wreq" wants to announce as root
-   writer; "wpend" announced, waiting for root readers; "ended" handler returned;
+   writer; "wpend" announced, waiting for root readers; "ret" body finished, about to return;
+   "ended" handler returned;
    "replied" reply written and locks released; "done" client has the reply. *)
-InBody  == {"run", "wreq", "wpend"}
+InBody  == {"run", "wreq", "wpend", "ret"}
 Started == InBody \cup {"ended", "replied", "done"}
 Over    == {"ended", "replied", "done"}      \* the handler has returned
 
@@ -195,11 +196,11 @@ GetIfW(k) ==
 (***************************************************************************)
 (* The user handler                                                        *)
 (***************************************************************************)
-Advance(k) == IF pos[k] = Len(Body(k)) THEN "ended" ELSE "run"   \* after consuming the atom at pos[k]
+Advance(k) == IF pos[k] = Len(Body(k)) THEN "ret" ELSE "run"   \* after consuming the atom at pos[k]
 
 HStart(k) ==
   /\ pc[k] = "ready"
-  /\ pc' = [pc EXCEPT ![k] = IF Body(k) = <<>> THEN "ended" ELSE "run"]
+  /\ pc' = [pc EXCEPT ![k] = IF Body(k) = <<>> THEN "ret" ELSE "run"]
   /\ UNCHANGED <<cfg, os, sent, inbound, queue, lost, disp, pos, root, ifl>>
 
 HLocal(k, atom) ==   \* pass a yield point / emit a signal: no lock involved
@@ -227,6 +228,11 @@ HWrote(k) ==   \* readers drained: mutate the tree, release (at/remove do not su
   /\ pos' = [pos EXCEPT ![k] = @ + 1]
   /\ UNCHANGED <<cfg, os, sent, inbound, queue, lost, disp, ifl>>
 
+HEnd(k) ==   \* the user handler returns
+  /\ pc[k] = "ret"
+  /\ pc' = [pc EXCEPT ![k] = "ended"]
+  /\ UNCHANGED <<cfg, os, sent, inbound, queue, lost, disp, pos, root, ifl>>
+
 \* the handler has returned (pc = "ended"): write the reply, drop the locks, free the dispatcher
 Finish(k) ==
   /\ pc[k] = "ended"
@@ -238,7 +244,7 @@ Finish(k) ==
 
 TaskStep(k) == \/ AcqRootR(k) \/ AcqIfR(k) \/ AnnounceIfW(k) \/ GetIfW(k)
                \/ HStart(k) \/ HYield(k) \/ HEmit(k) \/ HWantWrite(k) \/ HAnnounceW(k) \/ HWrote(k)
-               \/ Finish(k)
+               \/ HEnd(k) \/ Finish(k)
 
 AllDone == \A k \in Calls : pc[k] = "done"
 Done == sent = N /\ AllDone /\ UNCHANGED vars      \* explicit final stuttering: any other stuck state is a deadlock
@@ -255,11 +261,12 @@ DoHEmit       == \E k \in Calls : HEmit(k)
 DoHWantWrite  == \E k \in Calls : HWantWrite(k)
 DoHAnnounceW  == \E k \in Calls : HAnnounceW(k)
 DoHWrote      == \E k \in Calls : HWrote(k)
+DoHEnd        == \E k \in Calls : HEnd(k)
 DoFinish      == \E k \in Calls : Finish(k)
 
 Next == \/ CreateOS \/ ClientSend \/ ReaderDeliver \/ DispInit \/ DispTake
         \/ DoClientReply \/ DoAcqRootR \/ DoAcqIfR \/ DoAnnounceIfW \/ DoGetIfW
-        \/ DoHStart \/ DoHYield \/ DoHEmit \/ DoHWantWrite \/ DoHAnnounceW \/ DoHWrote \/ DoFinish
+        \/ DoHStart \/ DoHYield \/ DoHEmit \/ DoHWantWrite \/ DoHAnnounceW \/ DoHWrote \/ DoHEnd \/ DoFinish
         \/ Done
 
 Fairness == WF_vars(Next)     \* (Init is InitWith(c) for the configurations chosen in mc/ or read from a trace)
